@@ -150,9 +150,44 @@ pub fn alphabet_encrypted() -> Vec<Call> {
     a
 }
 
+/// variants 4 and 5: two revisions with cross-reference streams. In variant 4 the number of the older revision's
+/// cross-reference stream belongs to an ordinary stream object in the newer one; in variant 5 both cross-reference
+/// streams have the same number. (Cross-reference streams are found by offset, the stream cache is keyed by number.)
+fn xref_number_reuse_doc(same_number: bool) -> Vec<u8> {
+    let mut fb = FileBuilder::new(b"");
+    fb.add(1, 0, &Val::dict(vec![("Type", Val::name("Catalog")), ("Pages", Val::r(2))]));
+    fb.add(2, 0, &Val::dict(vec![("Type", Val::name("Pages")), ("Kids", Val::Array(vec![Val::r(3)])), ("Count", Val::Int(1)), ("MediaBox", Val::ints(&[0, 0, 9, 9]))]));
+    fb.add(3, 0, &Val::dict(vec![("Type", Val::name("Page")), ("Parent", Val::r(2)), ("Resources", Val::dict(vec![])), ("Contents", Val::r(4))]));
+    fb.add(4, 0, &Val::stream(vec![], b"q Q % first revision".to_vec()));
+    fb.finish_stream(&[("Root", Val::r(1))], &XrefStreamOpts::new(6));
+    fb.add(4, 0, &Val::stream(vec![], b"BT (second revision) Tj ET".to_vec()));
+    if same_number {
+        fb.finish_stream(&[("Root", Val::r(1))], &XrefStreamOpts::new(6));
+    } else {
+        fb.add(6, 0, &Val::stream(vec![], b"an ordinary stream with the number of the old cross-reference stream".to_vec()));
+        fb.finish_stream(&[("Root", Val::r(1))], &XrefStreamOpts::new(7));
+    }
+    fb.bytes()
+}
+
+pub fn alphabet_reuse() -> Vec<Call> {
+    use Kind::*;
+    let mut a: Vec<Call> = vec![];
+    for n in [4u64, 6, 7] {
+        a.push((StreamData, n));
+        a.push((GetStream, n));
+        a.push((Resolve, n));
+    }
+    a.push((GetPage, 0));
+    a
+}
+
 pub fn c12_doc(variant: usize) -> Vec<u8> {
     if variant == 2 {
         return deep_doc();
+    }
+    if variant == 4 || variant == 5 {
+        return xref_number_reuse_doc(variant == 5);
     }
     if variant == 3 {
         return encrypted_doc();
@@ -217,6 +252,9 @@ pub fn alphabet_wide(variant: usize) -> Vec<Call> {
     }
     if variant == 3 {
         return alphabet_encrypted();
+    }
+    if variant == 4 || variant == 5 {
+        return alphabet_reuse();
     }
     let mut a: Vec<Call> = vec![];
     let mut objs: Vec<u64> = (1..=38).collect();
@@ -604,7 +642,7 @@ pub fn run(tier: Tier, _seed: u64, tally: &mut Tally) -> CheckMeta {
     }
     // deep chain: all sequences of length <= 2 under every configuration, length 3 under the two full cache configurations
     let mut n_deep = 0;
-    for dv in [2usize, 3] {
+    for dv in [2usize, 3, 4, 5] {
         let bytes = c12_doc(dv);
         let alpha = alphabet_wide(dv);
         if dv == 2 {
@@ -655,7 +693,7 @@ pub fn run(tier: Tier, _seed: u64, tally: &mut Tally) -> CheckMeta {
     CheckMeta {
         prop: "C12",
         level: "model_checking",
-        rule: format!("call alphabet of {} (kind, object) pairs on two generated documents (classic; xref stream + object stream) containing pages, fonts, a Flate image with predictor, a hex+run-length mask, an [ASCII85 Flate] image, a form and content streams: kinds resolve, get::<PagesNode|Font|XObject|Stream|ObjectStream>, Stream::data, raw_image_data, image_data, get_page (incl. type-mismatching and out-of-range calls). Exhaustive: all sequences of length <= 2 under 5 cache configurations {{SyncCache both, object only, stream only, own map-backed caches, none}} with strict and with tolerant options, all sequences of length 3 under {}, every ordering (all permutations) of the distinct calls per object, and all ordered pairs over a wide alphabet of {} calls (resolve and get::<PagesNode|Font|XObject|Stream|Primitive|Dictionary|i32> on every object of the document incl. an integer and a reference-only object, page look-ups) under all 5 configurations; a third document with a chain of 70 page-tree nodes nested through /Parent and {} calls (typed load and resolve of every 8th node, of nodes 31-33 and of the last, typed loads of page-tree nodes whose /Parent references form cycles of two and of three), strict and tolerant options, and a fourth, RC4-encrypted document whose encryption dictionary is indirect and keeps /O and /U in objects of their own (resolve and generic views of these objects, get::<CryptDict>, page string and stream): all sequences of length <= 2 under every configuration and of length 3 under the two full cache configurations; plus the complete walk of {} repository files cached vs uncached (strict and tolerant). Each answer is compared with the same call made alone on a fresh uncached document (canonical digest / root-cause error variant).", total_alpha, if tier.thorough() { "every configuration" } else { "both-caches and own-map-caches" }, total_wide, n_deep, n_corpus),
+        rule: format!("call alphabet of {} (kind, object) pairs on two generated documents (classic; xref stream + object stream) containing pages, fonts, a Flate image with predictor, a hex+run-length mask, an [ASCII85 Flate] image, a form and content streams: kinds resolve, get::<PagesNode|Font|XObject|Stream|ObjectStream>, Stream::data, raw_image_data, image_data, get_page (incl. type-mismatching and out-of-range calls). Exhaustive: all sequences of length <= 2 under 5 cache configurations {{SyncCache both, object only, stream only, own map-backed caches, none}} with strict and with tolerant options, all sequences of length 3 under {}, every ordering (all permutations) of the distinct calls per object, and all ordered pairs over a wide alphabet of {} calls (resolve and get::<PagesNode|Font|XObject|Stream|Primitive|Dictionary|i32> on every object of the document incl. an integer and a reference-only object, page look-ups) under all 5 configurations; a third document with a chain of 70 page-tree nodes nested through /Parent and {} calls (typed load and resolve of every 8th node, of nodes 31-33 and of the last, typed loads of page-tree nodes whose /Parent references form cycles of two and of three), strict and tolerant options, and a fourth, RC4-encrypted document whose encryption dictionary is indirect and keeps /O and /U in objects of their own (resolve and generic views of these objects, get::<CryptDict>, page string and stream), and two two-revision files whose cross-reference stream numbers are used again (by an ordinary stream of the newer revision / by the newer cross-reference stream): all sequences of length <= 2 under every configuration and of length 3 under the two full cache configurations; plus the complete walk of {} repository files cached vs uncached (strict and tolerant). Each answer is compared with the same call made alone on a fresh uncached document (canonical digest / root-cause error variant).", total_alpha, if tier.thorough() { "every configuration" } else { "both-caches and own-map-caches" }, total_wide, n_deep, n_corpus),
         assumptions: vec!["digests are independent of HashMap iteration order and file offsets".into()],
         exhaustive: true,
         bounds: json!({"sequence_len": maxlen}),
